@@ -114,6 +114,13 @@ extern int _mpt_convert_uint(void *val, size_t vlen, const char *src, int base)
 	if (!*src) {
 		return 0;
 	}
+	/* unsigned parser accepts a sign and negates without error */
+	while (isspace((unsigned char) *end)) {
+		++end;
+	}
+	if (*end == '-') {
+		return MPT_ERROR(BadValue);
+	}
 	/* max size unsigend integer */
 	errno = 0;
 	tmp = strtoumax(src, &end, base);
